@@ -5,7 +5,7 @@ import TypVerif.Spec.Func
 Judge for C14 (PROTOCOL.md "C14 — functional helpers").
 
 Callback families: acc(s,v) = 31*s+v+1 (unbounded Int; the harness keeps inputs small so that Go's int64 does not
-overflow), predicate p[m,r](v) = (v % m == r), keyer k[m](v) = v % m, equals eq[m](a,b) = (a % m == b % m) (Go `%`
+overflow), predicate p[m,r](v) = (v % m == r), keyer k[m](v) = v % m, equals eq[m](a,b) = (a % m == b % m) for m > 0 and the NON-symmetric eq[0](a,b) = (2a == b) (Go `%`
 = `Int.tmod`), converter c[j](v) = 2*v+1 erroring (error id j) at position j.  The converter is position sensitive:
 it is modelled by converting the list of (position, value) pairs.
 
@@ -22,7 +22,7 @@ open TypVerif.Model
 def accF (s v : Int) : Int := 31 * s + v + 1
 def predF (m r : Int) (v : Int) : Bool := v.tmod m == r
 def keyF (m : Int) (v : Int) : Int := v.tmod m
-def eqF (m : Int) (a b : Int) : Bool := a.tmod m == b.tmod m
+def eqF (m : Int) (a b : Int) : Bool := if m == 0 then 2 * a == b else a.tmod m == b.tmod m
 def convF (v : Int) : Int := 2 * v + 1
 /-- the erroring converter on (position, value) -/
 def convErrF (j : Int) (pv : Nat × Int) : Except Int Int :=
